@@ -68,6 +68,9 @@ func (c *Ctx) buildCobraModel() *cobraModel {
 				return
 			}
 			if f := funcOfValue(st.Val); f != nil {
+				if strings.Contains(f.Name(), "$") {
+					funcAlias[f] = "cmd." + g + "." + name
+				}
 				switch name {
 				case "RunE", "Run", "PreRunE", "PreRun", "PostRunE", "PostRun":
 					m.handler[f] = g
